@@ -59,9 +59,11 @@ CHECKS = {
  "C20": ("exploration", "runtime monitoring: restart histories on one storage against a model (own structure fingerprint), exhaustive setup-code enumeration, independent setup-URI decoder",
          "Histories of 4..7 runs with value-only and 14 kinds of structural changes, pair / unpair / add-controller in between, in-process and child-process restarts; oracle: id, key pair and pairings stable, c# +1 iff the served database without values changed, c# == version file, sf == 1 iff no controller stored (re-checked after every pair/unpair without restart); ValidatePin on sampled (quick) / all 10^8 (thorough) codes and 20000 non-code strings; X-HM URI decoded independently for all categories x flags.",
          "trusted base: refctl, VerifTXT hook (returns the live txt records)", "DESIGN.md §5 C20"),
+ "C10": ("exploration", "runtime monitoring: subscription-model checker over generated multi-connection histories with a fence after every operation (exact per-connection EVENT multisets), concurrent exactly-once variant, race detector",
+         "3..5 verified controllers, 2..4 accessories, histories of 40 operations (subscribe, unsubscribe, local set, remote write changing / same value, combined PUT, close FIN/RST, reconnect, join via /pairings); after every operation every live connection is fenced and the EVENTs received are compared with the model; closed connections checked through hc's debug log after bounded progress; concurrent writers on distinct characteristics with connection churn checked offline for exactly-once and under -race (reports filtered to notifyListener / session / context).",
+         "trusted base: refctl; hc writes EVENTs synchronously inside the changing call (the fence argument of DESIGN §3.4)", "DESIGN.md §5 C10"),
 }
 NOT_YET = {
- "C10": "monitor not built yet in this commit (see DESIGN.md §5 C10)",
  "C13": "monitor not built yet in this commit (see DESIGN.md §5 C13)",
 }
 def main():
